@@ -466,3 +466,33 @@ func ZZC01Lists() {
 	zzReach("lists-ok")
 	zzWitness("end")
 }
+
+// ZZC01Args: whitespace separates arguments: a postfix expression (index,
+// slice, dot, type assertion, group, call) followed by whitespace and an
+// argument that starts with `-`, `!`, `[`, `(` or `{` is two arguments, for
+// every such pair.
+func ZZC01Args() {
+	firsts := []struct{ src, out string }{
+		{"arr[0]", "1"}, {"arr[1:]", "[2 3]"}, {"arr[:2]", "[1 2]"}, {"arr[:]", "[1 2 3]"}, {"s[1:]", "bc"}, {"s[0]", "a"},
+		{"m.k", "5"}, {"m[\"k\"]", "5"}, {"v.(num)", "7"}, {"(n)", "4"}, {"(len arr)", "3"}, {"n", "4"}, {"[1 2][1:]", "[2]"}, {"nested[0][1:]", "[9]"},
+	}
+	seconds := []struct{ src, out string }{
+		{"-1", "-1"}, {"-n", "-4"}, {"!b", "false"}, {"[4]", "[4]"}, {"[]", "[]"}, {"(n)", "4"}, {"{}", "{}"}, {"\"x\"", "x"}, {"arr[-1]", "3"},
+	}
+	f := firsts[zzChoice("first", len(firsts))]
+	g := seconds[zzChoice("second", len(seconds))]
+	src := "arr := [1 2 3]\ns := \"abc\"\nm := {k:5}\nv:any\nv = 7\nn := 4\nb := true\nnested := [[8 9]]\n" +
+		"print " + f.src + " " + g.src + "\nprint \"keep\" arr s m v n b nested\n"
+	p := &zzPlat{}
+	ev := NewEvaluator(p)
+	err := ev.Run(src)
+	if err != nil {
+		zzLog("C01 args: " + f.src + " " + g.src + ": " + err.Error())
+	}
+	zzAssert(err == nil, "C01 args: a postfix expression followed by whitespace and another argument is accepted")
+	if err == nil && len(p.trace) > 0 {
+		zzAssert(p.trace[0] == "print:"+f.out+" "+g.out+"\n", "C01 args: whitespace separates the two arguments, whatever postfix form the first one has")
+	}
+	zzReach("args-ok")
+	zzWitness("end")
+}
